@@ -282,3 +282,61 @@ Qed.
 Example finding_pbstring_loses_variables :
   parse_opb (print_opb (PBProblem 3 [1] [] None)) = Some (1, [UC [(1, 1)] Eq 1], None).
 Proof. vm_compute; reflexivity. Qed.
+
+(* ------------------------------------------------------------------ *)
+(* The meaning of what the OPB printers give back (for C18).           *)
+
+Theorem C18_opb_models : forall P,
+  wf_pb_problem P -> lines_short (list_ascii_of_string (print_opb P)) ->
+  exists n' cs',
+    parse_opb (print_opb P) = Some (n', cs', pp_cost P) /\
+    forall m, sat_uproblem m cs'
+              = forallb (lit_val m) (pp_units P) && sat_problem m (pp_clauses P).
+Proof.
+  intros P Hwf Hs. eexists. eexists. split; [apply C18_opb; assumption|].
+  intros m. apply sat_pb_problem_ucs.
+Qed.
+
+(* the top-level facts of a solver: variable i+1 is true (level 1) or false
+   (level -1) *)
+Fixpoint facts_sat (m : list bool) (i : Z) (model : list Z) : bool :=
+  match model with
+  | [] => true
+  | v :: r =>
+    (if v =? 1 then var_val m (i + 1)
+     else if v =? -1 then negb (var_val m (i + 1))
+     else true) && facts_sat m (i + 1) r
+  end.
+
+Lemma sat_facts_items : forall m model i, 0 <= i ->
+  sat_uproblem m (map item_uc (facts_items i model)) = facts_sat m i model.
+Proof.
+  intros m. induction model as [|v r IH]; intros i Hi; [reflexivity|].
+  cbn [facts_items facts_sat]. unfold sat_uproblem in *. rewrite map_app, forallb_app.
+  rewrite IH by lia. f_equal.
+  assert (Hl : lit_val m (i + 1) = var_val m (i + 1)).
+  { unfold lit_val. replace (0 <? i + 1) with true by (symmetry; apply Z.ltb_lt; lia). reflexivity. }
+  destruct (v =? 1).
+  - cbn [map forallb]. change (item_uc ([(1, i + 1)], Eq, 1)) with (UC [(1, i + 1)] Eq 1).
+    rewrite andb_true_r.
+    etransitivity; [exact (sat_fact_uc m (i + 1) 1 (or_intror eq_refl))|exact Hl].
+  - destruct (v =? -1); [|reflexivity].
+    cbn [map forallb]. change (item_uc ([(1, i + 1)], Eq, 0)) with (UC [(1, i + 1)] Eq 0).
+    rewrite andb_true_r.
+    etransitivity; [exact (sat_fact_uc m (i + 1) 0 (or_introl eq_refl))|].
+    change (0 =? 1) with false. cbv iota. rewrite Hl. reflexivity.
+Qed.
+
+Theorem C18_solver_opb_models : forall S,
+  wf_solver_view S -> lines_short (list_ascii_of_string (print_solver_opb S)) ->
+  exists n' cs',
+    parse_opb (print_solver_opb S) = Some (n', cs', sv_cost S) /\
+    forall m, sat_uproblem m cs'
+              = sat_problem m (sv_orig S ++ sv_learned S) && facts_sat m 0 (sv_model S).
+Proof.
+  intros S Hwf Hs. eexists. eexists. split; [apply C18_solver_opb; assumption|].
+  intros m. unfold solver_view_ucs, facts_ucs, sat_uproblem. rewrite forallb_app. f_equal.
+  - unfold sat_problem. induction (sv_orig S ++ sv_learned S) as [|c r IH]; [reflexivity|].
+    cbn [map forallb]. rewrite sat_pbc_uc, IH. reflexivity.
+  - apply (sat_facts_items m (sv_model S) 0). lia.
+Qed.
